@@ -236,6 +236,14 @@ def _hypothesis_task(sub, task, ctx, state, treedir, journal, open_keys):
         raise HarnessAbort("exception group from hypothesis: %r" % (eg.exceptions,))
 
 
+def _kill_group(pgid):
+    """Kill every process still in the session/process group a task child created."""
+    try:
+        os.killpg(pgid, signal.SIGKILL)
+    except (OSError, ProcessLookupError):
+        pass
+
+
 class Pool(object):
     """Fork one child per task, at most `jobs` at a time; collect JSON results; notice
     children that died on a signal."""
@@ -256,6 +264,12 @@ class Pool(object):
                 if pid == 0:
                     code = 0
                     try:
+                        # own session: whatever the code under test leaves running (worker pools, helper
+                        # processes) is killed with the task and cannot outlive it or hold our pipes open
+                        try:
+                            os.setsid()
+                        except OSError:
+                            pass
                         signal.signal(signal.SIGINT, signal.SIG_DFL)
                         fn(t, out)
                     except BaseException:
@@ -268,6 +282,7 @@ class Pool(object):
                 self.running[pid] = (t, out)
             if time.time() > deadline:
                 for pid in list(self.running):
+                    _kill_group(pid)
                     try:
                         os.kill(pid, signal.SIGKILL)
                     except OSError:
@@ -288,6 +303,7 @@ class Pool(object):
                 continue
             if pid not in self.running:
                 continue
+            _kill_group(pid)          # stragglers of the finished task
             t, out = self.running.pop(pid)
             if os.path.exists(out):
                 with open(out) as fh:
